@@ -4,7 +4,7 @@
    its affine column j is  spacing_j * unit_j. *)
 From Coq Require Import String ZArith List Bool QArith.
 From HD Require Import Base.Val Base.PySlice C09_Model C09_Proofs C09_Proofs_Match C09_Proofs_Voxels C09_Proofs_Sound
-  C09_Proofs_Index.
+  C09_Proofs_Index C09_Proofs_Dtype.
 Import ListNotations.
 Open Scope Z_scope.
 
@@ -426,3 +426,82 @@ Theorem C09_v2v_rounded_agrees_with_physical_route : forall A B shape check pts,
   (forall e, ref2idx B shape true check (idx2ref A pts) = Err e -> exists e', v2v A B shape true check pts = Err e').
 Proof. exact v2v_rounded_agrees_with_physical_route. Qed.
 Print Assumptions C09_v2v_rounded_agrees_with_physical_route.
+
+(* ===================================================================================================== *)
+(* 17. the dtype of the index array given to VolumeToVolumeTransformer.__call__ (signed / unsigned integers and
+       floats of 8..64 bits).  zfits w z: smin w <= z <= smax w (two's complement range of w bits);
+       vfits w v: the three ROUNDED coordinates of v fit; round_width dt = the width of dt for SIGNED integer
+       inputs and 64 (np.int64) for unsigned and floating inputs.
+       (a) astype to the signed output type changes a value iff it does not fit;
+       (b) the rounded mapping equals the dtype-independent one (values, acceptance, refusal) whenever the rounded
+           indices fit the output type - and only then; for unsigned / floating inputs the output type is int64,
+           so negative indices are returned unchanged;
+       (c) hence it agrees with the route through physical space for EVERY input dtype;
+       (d) unrounded: dtype independent for signed integer and floating inputs (rounding to float32 is an oracle
+           premise); REFUTED for unsigned inputs - the code casts the float result to the unsigned input type
+           (reported defect): a point 1.5 voxels before the target comes back as 255 and passes check_bounds *)
+Theorem C09_astype_signed_id_iff : forall w z, wrap_s w z = z <-> smin w <= z <= smax w.
+Proof. exact wrap_s_id_iff. Qed.
+Print Assumptions C09_astype_signed_id_iff.
+
+Theorem C09_v2v_dtype_rounded_exact : forall dt A B shape check pts,
+  Forall (vfits (round_width dt)) (map (phys (v2v_aff A B)) pts) ->
+  v2v_dt dt A B shape true check pts = v2v A B shape true check pts.
+Proof. exact v2v_dt_rounded_exact. Qed.
+Print Assumptions C09_v2v_dtype_rounded_exact.
+
+Theorem C09_v2v_dtype_rounded_exact_iff : forall dt A B shape pts, ~ (det B == 0)%Q ->
+  (v2v_dt dt A B shape true false pts = v2v A B shape true false pts <->
+   Forall (vfits (round_width dt)) (map (phys (v2v_aff A B)) pts)).
+Proof. exact v2v_dt_rounded_exact_iff. Qed.
+Print Assumptions C09_v2v_dtype_rounded_exact_iff.
+
+Theorem C09_v2v_dtype_nonint_rounded : forall dt A B shape check pts, input_is_int dt = false ->
+  Forall (vfits W64) (map (phys (v2v_aff A B)) pts) ->
+  v2v_dt dt A B shape true check pts = v2v A B shape true check pts.
+Proof. exact v2v_dt_nonint_rounded. Qed.
+Print Assumptions C09_v2v_dtype_nonint_rounded.
+
+Theorem C09_v2v_dtype_unrounded_exact : forall dt A B shape check pts, (forall w, dt <> DUInt w) ->
+  v2v_dt dt A B shape false check pts = v2v A B shape false check pts.
+Proof. exact v2v_dt_unrounded_exact. Qed.
+Print Assumptions C09_v2v_dtype_unrounded_exact.
+
+Theorem C09_v2v_dtype_rounded_agrees_with_physical_route : forall dt A B shape check pts, ~ (det B == 0)%Q ->
+  Forall (vfits (round_width dt)) (map (phys (v2v_aff A B)) pts) ->
+  (forall l, v2v_dt dt A B shape true check pts = Ok l -> ref2idx B shape true check (idx2ref A pts) = Ok l) /\
+  (forall e, ref2idx B shape true check (idx2ref A pts) = Err e ->
+             exists e', v2v_dt dt A B shape true check pts = Err e').
+Proof. exact v2v_dt_rounded_agrees_with_physical_route. Qed.
+Print Assumptions C09_v2v_dtype_rounded_agrees_with_physical_route.
+
+Theorem C09_v2v_dtype_unrounded_agrees_with_physical_route : forall dt A B shape check pts, ~ (det B == 0)%Q ->
+  (forall w, dt <> DUInt w) ->
+  agree (v2v_dt dt A B shape false check pts) (ref2idx B shape false check (idx2ref A pts)).
+Proof. exact v2v_dt_unrounded_agrees_with_physical_route. Qed.
+Print Assumptions C09_v2v_dtype_unrounded_agrees_with_physical_route.
+
+Theorem C09_v2v_dtype_unsigned_unrounded_refuted :
+  ~ (det rf_B == 0)%Q /\
+  v2v_dt (DUInt W8) rf_A rf_B (T3 300 10 10) false true [V3 1 2 3] = Ok [V3 255 2 3] /\
+  ref2idx rf_B (T3 300 10 10) false true (idx2ref rf_A [V3 1 2 3]) = Err RT /\
+  exists l, ref2idx rf_B (T3 300 10 10) false false (idx2ref rf_A [V3 1 2 3]) = Ok l /\
+            Forall2 veq l [V3 (- (3 # 2)) 2 3].
+Proof. exact v2v_dt_unsigned_unrounded_refuted. Qed.
+Print Assumptions C09_v2v_dtype_unsigned_unrounded_refuted.
+
+(* non-vacuity: a uint8 point lying 4 voxels before the first voxel of a permuted sub-window keeps its negative
+   index (-4, not 252), the hypotheses of (b)/(c) hold, and the bounds check refuses it *)
+Example C09_v2v_dtype_example :
+  let A := geom_aff ex_src in let B := geom_aff ex_tgt in
+  ~ (det B == 0)%Q /\
+  Forall (vfits (round_width (DUInt W8))) (map (phys (v2v_aff A B)) [V3 2 1 11]) /\
+  mismatches [run_v2v_dt (DUInt W8) ex_src ex_tgt true false [V3 2 1 11];
+              run_v2v_dt (DUInt W8) ex_src ex_tgt true true [V3 2 1 11]]
+             [VL [VL [VL [VL [VZ (-4); VZ 1; VZ 1]]; VZ 164]; VL [VL [VZ (-4); VZ 1; VZ 1]]];
+              VL [VErr VE; VErr RT]] = [].
+Proof.
+  cbv zeta. split; [vm_compute; discriminate|]. split; [|vm_compute; reflexivity].
+  constructor; [|constructor]. unfold vfits, zfits. vm_compute. repeat split; discriminate.
+Qed.
+Print Assumptions C09_v2v_dtype_example.
